@@ -33,6 +33,7 @@ FULL STATEMENT (goal; the part not yet proved is the semantic layer on trees):
 -/
 import TonVerif.Proofs.BocEmit
 import TonVerif.Proofs.BocOrder
+import TonVerif.Proofs.BocConform
 
 namespace TonVerif.Properties.C04
 open TonVerif TonVerif.Model TonVerif.Spec.Boc TonVerif.Proofs.BocEmit TonVerif.Proofs.BocOrder
@@ -172,6 +173,34 @@ theorem crc_covers_prefix (o : Opts) (as : List ARec) (hv : o.valid = true) (h1 
     unfold bodyOf
     simp only [← List.append_assoc, ← List.cons_append]
     rfl⟩
+
+/-- **`c04_conforms_partial`** — `Cell.to_boc` END TO END on a tree of cells, everything except the semantic layer of the
+strict reader.  For every tree `t` of cells (`Model.Cell`: any kinds, data, sharing) with ≤ 4 references per cell and whose
+exotic cells carry their type byte, built into cell objects `p` by the model of `Cell.__init__`; under the local
+no-collision hypothesis on the hashes of its sub-cells; for each of the 6 valid option sets; whenever the model of
+`Cell.order` returns `ord` (it does with fuel `6·cells+2`: `order_total`): `ord` is a valid order, `to_boc` succeeds, and the
+byte-level strict reader accepts the bytes and decodes one record per distinct cell of `ord` with that cell's d1
+(reference count, exotic flag, level mask), its exact data bits (completion tag removed) and, per reference, the position
+of the referenced cell, which is strictly greater than the cell's own; root list `[0]`.
+The bounds `hn`/`hP` are the format's own limits (size ≤ 4 bytes, off_bytes ≤ 8 bytes).
+MISSING for the full `c04_conforms`: `evalRecs H (ord.map (cellSRec ord))` succeeds with the spec masks equal to the level
+bits of d1, pairwise distinct representation hashes, and rebuilt trees equal to `t` (semantic layer; see the header). -/
+theorem c04_conforms_partial (H : Bytes → Bytes) (t : Cell) (p : PCell) (sh : Shape t) (hb : Cell.build H t = some p)
+    (nc : NoCollision p) (fuel : Nat) (ord : List PCell) (h : p.order fuel = some ord) (o : Opts) (hv : o.valid = true)
+    (hn : ord.length < 2 ^ 32) (hP : (payloadOf (sizeW (orderRecs ord)) (orderRecs ord)).length * 2 < 2 ^ 64) :
+    ValidOrder p ord ∧ ∃ bs, p.toBoc fuel o = some bs ∧ strictFlat bs = some ⟨ord.map (cellSRec ord), [0]⟩ :=
+  toBoc_conforms_tree H t p sh hb nc fuel ord h o hv hn hP
+
+/-- completion tag: the data bytes `to_boc` writes for a cell have the length announced by d2, carry the completion tag
+in the last byte exactly when d2 is odd (and then `last & 0x7f ≠ 0`: present, not overlong), and decode back to the data bits. -/
+theorem completion_tag (bits : Bits) :
+    (dataBytes bits).length = cellD2 bits.length / 2 + cellD2 bits.length % 2 ∧ Bytes.WF (dataBytes bits) ∧
+    (cellD2 bits.length % 2 = 1 → ∃ last, (dataBytes bits).getLast? = some last ∧ last % 128 ≠ 0) ∧
+    decodeBits (cellD2 bits.length) (dataBytes bits) = bits := data_ok bits
+
+/-- non-vacuity of `Shape`: a 5-bit cell over two leaves -/
+example : Shape (.mk (-1) [true, false, true, true, false] [.mk (-1) [] [], .mk (-1) [true] []]) := by
+  simp [Shape, Shapes, kOrdinary]
 
 /-! Non-vacuity: a three-cell bag (root with two references to leaves, one leaf with 5 data bits) satisfies the
 hypotheses; the emitted bytes with index + CRC + cache bits are accepted. -/
